@@ -22,6 +22,55 @@ CHECKS = {
             're-encode to the same bytes.',
             'Greedy tails that do not end on the message alignment are excluded as the property states; reference model only '
             'supplies the value tree and the canonical bytes.', '4 C02'),
+    'C03': ('SSE+CPP', 'model_checking',
+            'bounded exhaustive schema-state x value x endianness exploration of the compiled C++ full codec under ASan+UBSan',
+            'Every state of the C++ universe is compiled (prophyc --cpp_full_out + shipped headers, clang++ ASan+UBSan) into a '
+            'driver; the canonical bytes of every value are decoded in little, big and native order and re-encoded; decode must '
+            'succeed and the bytes must be identical. Exhaustive within the stated bounds.',
+            'Canonical bytes come from the reference model (C01 ties the Python codec to the same bytes). x86-64, clang 14.',
+            '4 C03'),
+    'C04': ('SSE', 'model_checking',
+            'bounded exhaustive comparison of prophyc model nodes, Python class statics, C++ constants and fixed-type '
+            'encoding lengths with a reference layout, over all states and all dependency orders of small schemas',
+            'For every struct/union/typedef of every explored state: model byte_size/alignment/kind and per-member padding '
+            'markers, Python _SIZE/_ALIGNMENT/_DYNAMIC/_UNLIMITED, C++ encoded_byte_size and the length of every encoding of a '
+            'fixed type equal the reference layout; all linear extensions of the definition order give the same layout.',
+            'Reference layout trusted as in C01; raw sizeof/offsetof are compared against the same layout by C08.', '4 C04'),
+    'C05': ('SSE+CPP', 'model_checking',
+            'bounded exhaustive exploration of get_byte_size / encode(void*) / encode() agreement under ASan with canary arenas',
+            'For every state x value x {as decoded, limited vectors over-filled, arrays cleared/optionals reset} x {little, big}: '
+            'get_byte_size() equals the count returned by the pointer encode (measured in a canary-framed arena, then in an '
+            'exact-size heap buffer under ASan) and the vector length, and encoded_byte_size for fixed types.',
+            'Values reach the C++ object by decoding canonical bytes, so states a decode cannot produce are reached only '
+            'through the listed mutations.', '4 C05'),
+    'C10': ('AHE', 'model_checking',
+            'explicit-state BFS over API operation sequences on real message objects against a plain dict/list model',
+            'Breadth-first search over the operation alphabet (all field kinds, good, out-of-range and wrongly typed '
+            'arguments) on a zoo of small messages; each state is reached by replaying its history on a fresh object, sparse '
+            'and dense; every transition compares outcome class, observation, encode bytes, decode round trip and str() with '
+            'the reference model. Depth 3 (quick) / 4-5 (thorough), deduplicated on canonical states.',
+            'The zoo groups interacting fields in small messages (operations on unrelated fields commute); wrongly typed '
+            'indices are outside the alphabet.', '4 C10'),
+    'C11': ('AHE', 'model_checking',
+            'exhaustive product of ordered value pairs x every single follow-up mutation, sparse and dense, on real objects',
+            'For every composite-kind zoo message: all ordered pairs (a, b) of the value universe, b.copy_from(a) must give '
+            'equal observations and encodings and leave a unchanged; then every accepted single operation of the alphabet on '
+            'either side must leave the other untouched; same for elements copied by extend() (array, slice and list arguments).',
+            'History length 2 over a full product; deeper aliasing that needs two mutations is not explored.', '4 C11'),
+    'C18': ('SSE+CPP', 'model_checking',
+            'bounded exhaustive exploration of str() and compiled C++ print() against a reference renderer over every member order',
+            'Every permutation of up to 3 (quick) / 4 (thorough) members drawn from bytes, integer, enum, nested struct, array, '
+            'optional, union and composite-array members, with integers whose decimal and hex spellings differ and bytes on '
+            'both sides of every escape boundary; Python str() and C++ print() must equal the reference rendering. The general '
+            'C++ universe is rendered as well.',
+            'Floats and bytes containing quote characters are excluded as the property states.', '4 C18'),
+    'C19': ('SSE+CPP', 'model_checking',
+            'bounded exhaustive span-wise comparison of little- and big-endian encodings (Python and compiled C++)',
+            'For every state x value the reference span map labels every byte; big-endian output must be the little-endian '
+            'output with each scalar span reversed in place, all other bytes equal and every padding/fill byte zero; C++ '
+            'encode() (native) must equal encode<little>() on this host.',
+            'Span map from the reference model; cases whose encoding disagrees with the oracle are judged by C01/C03 and '
+            'only checked for equal length here.', '4 C19'),
 }
 
 NOT_APPLICABLE = []
@@ -63,6 +112,12 @@ def main():
             'add_only': True,
         },
         'engines': [
+            {'name': 'AHE', 'path': 'vf/ahe.py', 'serves_properties': ['C10', 'C11'],
+             'kind_free_text': 'API-history explorer: explicit-state BFS over operation sequences on real objects, states '
+                               'reached by replay on fresh objects, canonical-state deduplication'},
+            {'name': 'SSE+CPP', 'path': 'vf/cppfull.py', 'serves_properties': ['C03', 'C05', 'C07', 'C18', 'C19'],
+             'kind_free_text': 'schema-state explorer driving generated C++ compiled against the shipped headers with '
+                               'ASan+UBSan; one driver executable per batch, one case per (state, value, endianness, op)'},
             {'name': 'SSE', 'path': 'vf/sse.py', 'serves_properties': ['C01', 'C02', 'C03', 'C04', 'C05', 'C08', 'C09', 'C12', 'C17', 'C18', 'C19'],
              'kind_free_text': 'schema-state explorer: BFS over member sequences, every state materialised through prophyc and '
                                'checked for every value of a bounded value universe'},
